@@ -9,7 +9,10 @@ import (
 	"encoding/json"
 	"fmt"
 	"os"
+	"os/signal"
 	"runtime"
+	"strconv"
+	"syscall"
 
 	"oras.land/oras-go/v2/registry/remote/auth"
 	"oras.land/oras-go/v2/registry/remote/credentials"
@@ -50,6 +53,15 @@ func main() {
 		if err != nil {
 			fmt.Fprintln(os.Stderr, err)
 			os.Exit(3)
+		}
+		if v := os.Getenv("VERIF_FSIZE"); v != "" {
+			// a write fault: no file may grow beyond this many bytes (write fails with EFBIG; SIGXFSZ is ignored)
+			n, _ := strconv.ParseUint(v, 10, 64)
+			signal.Ignore(syscall.SIGXFSZ)
+			if err := syscall.Setrlimit(syscall.RLIMIT_FSIZE, &syscall.Rlimit{Cur: n, Max: n}); err != nil {
+				fmt.Fprintln(os.Stderr, err)
+				os.Exit(3)
+			}
 		}
 		os.Stderr.WriteString("VERIF-MARK\n")
 		ctx := context.Background()
